@@ -178,6 +178,17 @@ theorem C13_getslice_prefix (E : Env α δ) (self : List α) (hwf : WF E self) (
   simp only [getSlice, hb, slice_prefix_reads]
   exact mkBlock_wf E hwf'
 
+/-- a block array behaves as the tuple of its blocks under iteration: Python's legacy sequence protocol
+    (`x[0], x[1], …` until `IndexError`; this is what `for x in self`, `zip(self, other)`, `tuple(x)` and
+    `solver._ravel` run) yields exactly the blocks, in order, after `n + 1` calls of `__getitem__` — which is
+    why the model may work on the block list directly -/
+theorem C13_iter (self : List α) :
+    iterBlocks self = self ∧ ∀ fuel, self.length + 1 ≤ fuel → iterFrom self 0 fuel = self := by
+  constructor
+  · simpa [iterBlocks] using iterFrom_eq_drop self (self.length + 1) 0 (by omega)
+  · intro fuel h
+    simpa using iterFrom_eq_drop self fuel 0 (by omega)
+
 /-! ### `map_func_over_blocks` -/
 
 /-- the number of blocks is taken from the first `BlockArray` in the order
@@ -931,6 +942,9 @@ example : mapTupleOfTuples (β := Unit) exEnv
     = .ok (.blk [List.replicate 6 0, List.replicate 4 0]) := by decide
 example : shapeToSize (.tup [.tup [.int 2, .int 3], .tup [.int 4]]) = 10 := by decide
 example : WF exEnv [[1, 2], [3]] := ⟨fun _ _ => rfl, fun _ _ _ _ => rfl⟩
+-- iteration: three blocks need four `__getitem__` calls; with fewer the iteration would be cut short
+example : iterBlocks [[1], [2, 3], [4]] = [[1], [2, 3], [4]] := by decide
+example : iterFrom [[1], [2, 3], [4]] 0 2 = [[1], [2, 3]] := by decide
 -- slices: x[::-1], x[1:], x[-2:5:2] on four blocks
 example : getSlice exEnv [[1], [2], [3], [4]] none none (some (-1)) = .ok [[4], [3], [2], [1]] := by decide
 example : getSlice exEnv [[1], [2], [3], [4]] (some 1) none none = .ok [[2], [3], [4]] := by decide
